@@ -55,20 +55,33 @@ def check_eager_binding(rep, rule):
     if ok:
         rp = ai.params()[1]
 
-        def all_routes(e, depth=0, rebinding=False):
-            """``e`` is the routes argument (every entry of it, in order), possibly defaulted to an empty list."""
+        def all_routes(e, depth=0, rebinding=False, seen=None):
+            """``e`` is the routes argument (every entry of it, in order), possibly defaulted to an empty list.  ``seen``: for a
+            local re-bound in straight-line code, how many of its bindings lie before the point of view."""
+            seen = seen or {}
             if isinstance(e, ast.Call) and call_name(e) in ('list', 'tuple', 'iter') and len(e.args) == 1 and not e.keywords:
-                return all_routes(e.args[0], depth, rebinding)
+                return all_routes(e.args[0], depth, rebinding, seen)
             if isinstance(e, ast.BoolOp) and isinstance(e.op, ast.Or) and len(e.values) == 2:
                 d = e.values[1]
-                return all_routes(e.values[0], depth, rebinding) and ((isinstance(d, (ast.List, ast.Tuple)) and not d.elts) or
-                                                                      (isinstance(d, ast.Call) and call_name(d) in ('list', 'tuple') and not d.args))
+                return all_routes(e.values[0], depth, rebinding, seen) and ((isinstance(d, (ast.List, ast.Tuple)) and not d.elts) or
+                                                                            (isinstance(d, ast.Call) and call_name(d) in ('list', 'tuple') and not d.args))
             if isinstance(e, ast.Name):
                 vals = [v for st_, v, idx in assigned_value(ai.node, e.id)]
                 if e.id == rp:
                     # the parameter; re-bound only from itself (routes = routes or [])
                     return rebinding or all(all_routes(v, depth + 1, True) for v in vals)
-                return depth < 3 and len(vals) == 1 and all_routes(vals[0], depth + 1, rebinding)
+                if len(vals) > 1 or e.id in seen:
+                    # re-bound in straight-line code before the loop (``r = routes`` / ``r = r or []``): the last binding counts,
+                    # and what it reads of the local itself is the binding before it
+                    body = ai.node.body
+                    idx = [i for i, s_ in enumerate(body) if s_ is loops[0]]
+                    tops = [s_ for s_ in (body[:idx[0]] if idx else []) if isinstance(s_, ast.Assign) and len(s_.targets) == 1 and
+                            isinstance(s_.targets[0], ast.Name) and s_.targets[0].id == e.id]
+                    n = seen.get(e.id, len(tops))
+                    if len(tops) != len(vals) or n < 1 or depth >= 4:
+                        return False
+                    return all_routes(tops[n - 1].value, depth + 1, rebinding, dict(seen, **{e.id: n - 1}))
+                return depth < 3 and len(vals) == 1 and all_routes(vals[0], depth + 1, rebinding, seen)
             return False
         ok = all_routes(loops[0].iter)
         # the add call itself is unconditional in the loop body
